@@ -8,7 +8,10 @@ from ..oracles import shadow as S
 def parse(text):
     from mathy_core.parser import ExpressionParser
 
-    return ExpressionParser().parse(text)
+    from . import copies as _CP
+
+    # (every 13th tree any workload parses reaches it as a deep copy / an unpickled copy of what the parser returned)
+    return _CP.routed(ExpressionParser().parse(text), "parsed-tree", every=13)
 
 
 def is_long(sh):
